@@ -26,7 +26,7 @@ func (d *schemaDoc) fn(format string, a ...any) {
 	d.funcs = append(d.funcs, strings.Replace(fmt.Sprintf(format, a...), "#ID", "#"+d.id(), 1))
 }
 
-var defRe = regexp.MustCompile(`^([A-Za-z][A-Za-z0-9_.]*)#[0-9a-f]+ .*= ([A-Za-z][A-Za-z0-9_.]*);$`)
+var defRe = regexp.MustCompile(`^([A-Za-z][A-Za-z0-9_.]*)#[0-9a-f]+ .*= ([A-Za-z][A-Za-z0-9_.<>]*);$`)
 
 // applyUnique applies a feature and then renames every constructor and type the feature itself defined with a
 // suffix unique to the feature, so that any two features can be combined in one schema.
